@@ -147,7 +147,7 @@ theorem gpc_upper_validate (E : Env) (X Y Z : Nat) (hE : EnvPy E X Y Z) (S : Lea
 theorem gpc_exact_validate (E : Env) (X Y Z : Nat) (hE : EnvPy E X Y Z) (S : LeafSpec (leafEval E) (PyG E))
     (m : M) (g : VC) (hg : M.Good (PyG E) m)
     (hvars : ∀ n ∈ M.vars m, pyNames.contains n = true)
-    (HR : ReparseNames)
+   
     (hne : ∀ d, dnf defaultFuel [] m = .ok d → d ≠ .empty)
     (h : gpc m = .ok g) : M.validate E m = .ok (g.allowsPlain (pyV X Y Z)) := by
   have hSp := splitSound_holds X Y Z
@@ -155,7 +155,7 @@ theorem gpc_exact_validate (E : Env) (X Y Z : Nat) (hE : EnvPy E X Y Z) (S : Lea
   congr 1
   refine gpc_exact S X Y Z m g hg hvars (fun l hl hk => leafClause_of_comp E X Y Z hE l hl.1 hl.2.1 hk) hSp hne ?_ h
   intro d hd l hl
-  have hv := dnf_vars HR S (fun l hl => hl.2.2) _ _ m d hg hd l.name (leaf_name_mem_vars d l hl)
+  have hv := dnf_vars S (fun l hl => hl.2.2) _ _ m d hg hd l.name (leaf_name_mem_vars d l hl)
   exact convKey_of_pyNames (hvars _ hv)
 
 end Poetry.Marker
